@@ -961,6 +961,33 @@ func (e *SpecEnv) evalCall(x *SCall) Val {
 				ne.names[fmt.Sprintf("arg%d", i)] = a // the call's own arguments
 			}
 			return ne.eval(x.Args[1])
+		case "ran": // ran(NAME): control went through the block in which the local NAME (exactly one definition) is declared —
+			// the guard a checked clause needs before it mentions a variable of a branch that may have been skipped. Inside a
+			// loop body the predicate speaks about the current iteration (the body is a DAG from the havocked header).
+			id, ok := x.Args[0].(*SIdent)
+			if !ok || len(x.Args) != 1 || e.f == nil {
+				e.fail("ran() takes the name of a local variable")
+			}
+			defs := e.f.defsOf(id.Name)
+			var blk *ssa.BasicBlock
+			for _, d := range defs {
+				if d.addr || d.val != defs[0].val {
+					e.fail("ran(%s): %s is assigned more than once (or lives in memory); exactly one definition is needed", id.Name, id.Name)
+				}
+			}
+			if len(defs) > 0 {
+				if in, ok := defs[0].val.(ssa.Instruction); ok {
+					blk = in.Block()
+				}
+			}
+			if blk == nil {
+				e.fail("ran(%s): no local of that name is defined by an instruction of this function", id.Name)
+			}
+			re := e.f.reach[blk]
+			if re == "" {
+				re = "false" // block not processed: unreachable
+			}
+			return Val{T: boolT, S: re}
 		case "effects":
 			return Val{T: types.Typ[types.Int], S: e.st.get(HeapKey{Name: "G_effects", Sort: "Int"})}
 		case "calls": // calls(NAME): how many calls of NAME this activation has made so far (ghost counter, callassert.go)
